@@ -16,7 +16,7 @@ type WiredDatatype struct {
 	wire        iface.Wire
 	checkPoint  *model.CheckPoint
 	localBuffer []*model.Operation
-	appliedSeq  map[string]uint64 // per origin client: the newest of its operations applied here
+	appliedAt   map[string]uint64 // per origin client: the clock of the newest of its operations applied here
 }
 
 // NewWiredDatatype creates a new wiredDatatype
@@ -25,7 +25,7 @@ func NewWiredDatatype(w iface.Wire, t *TransactionDatatype) *WiredDatatype {
 		TransactionDatatype: t,
 		checkPoint:          model.NewCheckPoint(),
 		localBuffer:         make([]*model.Operation, 0, constants.OperationBufferSize),
-		appliedSeq:          make(map[string]uint64),
+		appliedAt:           make(map[string]uint64),
 		wire:                w,
 	}
 }
@@ -33,7 +33,7 @@ func NewWiredDatatype(w iface.Wire, t *TransactionDatatype) *WiredDatatype {
 // ResetWired resets the data related to WiredDatatype
 func (its *WiredDatatype) ResetWired() {
 	its.localBuffer = make([]*model.Operation, 0, constants.OperationBufferSize)
-	its.appliedSeq = make(map[string]uint64)
+	its.appliedAt = make(map[string]uint64)
 	its.opID.Seq = 0
 }
 
@@ -155,18 +155,23 @@ func (its *WiredDatatype) checkOptionAndError(ppp *model.PushPullPack) errors.Or
 // response can repeat operations in any position - after a lost response the retried pull
 // returns the client's own stored operations again, possibly behind operations other
 // clients pushed in between; a duplicated or stale response repeats foreign ones - so they
-// are recognised individually: the log holds every client's operations in its own sequence
-// order, hence an operation is new iff it is not this client's and its sequence number is
-// above the newest one applied from its origin. (A transaction unit has consecutive
-// sequence numbers of one origin and is therefore kept or dropped as a whole.)
+// are recognised individually: the log holds the operations of every origin in the order
+// they were issued, i.e. with strictly increasing logical clocks, hence an operation is new
+// iff it is not this client's own and its clock is above that of the newest operation
+// applied from its origin. (The clock, not the sequence number: the operations the server
+// itself appends for REST patches share one origin and restart their sequence numbers.
+// A transaction unit has increasing clocks of one origin and is kept or dropped as a whole.)
 func (its *WiredDatatype) excludeDuplicatedOperations(ppp *model.PushPullPack) {
 	fresh := make([]*model.Operation, 0, len(ppp.Operations))
 	for _, op := range ppp.Operations {
 		origin := op.ID.GetCUID()
-		if origin == its.opID.CUID || op.ID.GetSeq() <= its.appliedSeq[origin] {
+		if origin == its.opID.CUID {
 			continue
 		}
-		its.appliedSeq[origin] = op.ID.GetSeq()
+		if newest, ok := its.appliedAt[origin]; ok && op.ID.GetLamport() <= newest {
+			continue
+		}
+		its.appliedAt[origin] = op.ID.GetLamport()
 		fresh = append(fresh, op)
 	}
 	if skip := len(ppp.Operations) - len(fresh); skip > 0 {
